@@ -192,6 +192,13 @@ func c17Vartime() string {
 }
 
 type c17Op struct {
+	// shape, when set, returns the SHAPE of the variable-length PUBLISHED output the
+	// operation produces for this secret (for a DER signature: the lengths and padding
+	// flags of r and s).  The property allows control flow to depend on published
+	// outputs, so traces are only required to agree among secrets whose published
+	// output has the same shape (a hand-written DER writer strips leading zeros and
+	// pads the high bit - of the signature, which is public).
+	shape  func(s c17Secret, variant int) string
 	zeroOK bool // the operation admits the secret scalar 0
 	name   string
 	// prep runs outside the traced region and returns the traced closure
@@ -359,7 +366,21 @@ func runC17(r *mon.Run) {
 			k := mustPriv(s.v)
 			opts := &secec.ECDSAOptions{Encoding: secec.SignatureEncoding(v % 3), SelfVerify: v >= 3}
 			return func() { _, _ = k.Sign(&fixedReader{data: entropy}, digest, opts) }
-		}, vars: 6},
+		}, vars: 6, shape: func(s c17Secret, v int) string {
+			if secec.SignatureEncoding(v%3) != secec.EncodingASN1 {
+				return "" // fixed-length encodings
+			}
+			sig, err := mustPriv(s.v).Sign(&fixedReader{data: entropy}, digest, &secec.ECDSAOptions{Encoding: secec.EncodingASN1})
+			if err != nil || len(sig) < 8 {
+				return "error"
+			}
+			rl := int(sig[3])
+			if 4+rl+2 > len(sig) {
+				return "odd"
+			}
+			sl := int(sig[4+rl+1])
+			return fmt.Sprintf("der:len=%d,r=%d/pad=%v,s=%d/pad=%v", len(sig), rl, sig[4] == 0, sl, sig[4+rl+2] == 0)
+		}},
 		// the per-signature nonce is a secret too: fixed key and digest, the 32 entropy
 		// bytes (hence the nonce, R and s) range over the secret set
 		{zeroOK: true, name: "SignRaw/secret-entropy(nonce varies)", prep: func(s c17Secret, v int) func() {
@@ -411,15 +432,20 @@ func runC17(r *mon.Run) {
 	summary := map[string]map[string]any{}
 	r.Seq("c17/trace-equivalence", len(cfgs), func(w *mon.W, i int) {
 		c := cfgs[i]
+		type bucket struct {
+			base   c17Snap
+			first  int
+			member int
+		}
+		buckets := map[string]*bucket{}
 		var base c17Snap
-		fingerprints := map[string]int{}
-		first := -1
 		for si, s := range secrets {
 			if s.v.Sign() == 0 && !c.op.zeroOK {
 				continue
 			}
-			if first < 0 {
-				first = si
+			sh := ""
+			if c.op.shape != nil {
+				sh = c.op.shape(s, c.variant)
 			}
 			f := c.op.prep(s, c.variant)
 			secp256k1.VerifInstrReset()
@@ -429,19 +455,42 @@ func runC17(r *mon.Run) {
 				w.Fail("c17/vartime/"+c.op.name, fmt.Sprintf("%s (variant %d) with secret class %q ran a routine documented as variable-time: %s", c.op.name, c.variant, s.class, vt), "secret", hb(s.v))
 				return
 			}
-			if si == first {
-				base = c17Take()
-				fingerprints[fmt.Sprint(base.idxHash, base.nonzero)]++
+			b := buckets[sh]
+			if b == nil {
+				b = &bucket{base: c17Take(), first: si}
+				buckets[sh] = b
+				if len(buckets) == 1 {
+					base = b.base
+				}
+			}
+			b.member++
+			if b.first == si {
 				continue
 			}
-			if d := c17Diff(base); d != "" {
-				w.Fail("c17/trace/"+c.op.name, fmt.Sprintf("%s (variant %d): control flow or lookup pattern depends on the secret: %s [first secret %x (%s), this secret %x (%s)]", c.op.name, c.variant, d, secrets[first].v, secrets[first].class, s.v, s.class), "secret_a", hb(secrets[first].v), "secret_b", hb(s.v))
+			if d := c17Diff(b.base); d != "" {
+				shNote := ""
+				if sh != "" {
+					shNote = " (both published outputs have the shape " + sh + ")"
+				}
+				w.Fail("c17/trace/"+c.op.name, fmt.Sprintf("%s (variant %d): control flow or lookup pattern depends on the secret%s: %s [first secret %x (%s), this secret %x (%s)]", c.op.name, c.variant, shNote, d, secrets[b.first].v, secrets[b.first].class, s.v, s.class), "secret_a", hb(secrets[b.first].v), "secret_b", hb(s.v))
 				return
 			}
 		}
+		compared, shapes := 0, map[string]int{}
+		for sh, b := range buckets {
+			if b.member > 1 {
+				compared += b.member
+			}
+			if sh != "" {
+				shapes[sh] = b.member
+			}
+		}
+		if compared < len(secrets)/2 {
+			r.Inconclusive("%s (variant %d): only %d of %d secrets fell into an output-shape bucket with a second member", c.op.name, c.variant, compared, len(secrets))
+		}
 		w.Class("c17:op:" + c.op.name)
 		w.Class("c17:single-fingerprint")
-		summary[fmt.Sprintf("%s#%d", c.op.name, c.variant)] = map[string]any{"secrets": len(secrets), "blocks_executed": base.nonzero, "index_events": base.idxCount, "distinct_fingerprints": 1}
+		summary[fmt.Sprintf("%s#%d", c.op.name, c.variant)] = map[string]any{"secrets": len(secrets), "secrets_compared": compared, "blocks_executed": base.nonzero, "index_events": base.idxCount, "distinct_fingerprints_per_output_shape": 1, "published_output_shapes": shapes}
 		if i < 3 {
 			w.Sample(map[string]any{"op": c.op.name, "variant": c.variant, "secrets": len(secrets), "blocks_executed": base.nonzero, "index_events_per_call": base.idxCount})
 		}
